@@ -17,7 +17,7 @@ PROPERTY = "C04"
 LEVEL = "fault_enumeration"
 RULE = ("one request per scenario against a scripted peer on the virtual clock; scenarios = every fault script over a "
         "16-symbol alphabet up to depth retries+1 (exhaustive) x {udp-rtu, tcp} x keep-alive x (T, R) grid, TCP connect "
-        "outcome scripts, AA55 framing scripts, a silent request after a request under every fault script (at once and 0.4 T later), a stale corrupted datagram arriving while idle at 8 arrival phases, random deeper multi-request histories with random arrival phase of every peer send (thorough: the exhaustive part again with sends deferred by 2 / 5 loop iterations); distinct = distinct "
+        "outcome scripts, AA55 framing scripts, a silent request after a request under every fault script (at once and 0.4 T later), a stale corrupted datagram arriving while idle at 8 arrival phases, every truncation length of the answer (0 bytes .. frame minus one; once or on every attempt) for the three framings, random deeper multi-request histories with random arrival phase of every peer send (thorough: the exhaustive part again with sends deferred by 2 / 5 loop iterations); distinct = distinct "
         "(transport, keep-alive, R, outcome, #tx, event-kind trace) tuples")
 ASSUMPTIONS = [
     "AF_UNIX socketpairs stand in for UDP/TCP sockets (synchronous in-kernel delivery); OS errors are injected at the "
@@ -25,7 +25,7 @@ ASSUMPTIONS = [
     "virtual clock: asyncio timers fire in deadline order exactly as on a real clock; wall time is only a watchdog",
     "one caller at a time (concurrency is C06)",
 ]
-MUST = ["stale_datagram_while_idle", "retry_branch", "max_retries_branch", "fragment_rearm", "immediate_retry_invalid", "tcp_connect_error",
+MUST = ["truncated_answer", "stale_datagram_while_idle", "retry_branch", "max_retries_branch", "fragment_rearm", "immediate_retry_invalid", "tcp_connect_error",
         "connect_hang_bounded", "silent_exact", "success", "rejected"]
 EXHAUSTIVE = {"quick": True, "thorough": True}
 
@@ -217,6 +217,11 @@ def plan(tier, seed):
     for ka in (False, True):
         specs.append({"mode": "exhaustive", "transport": "udp", "framing": "aa55", "ka": ka, "T": 1,
                       "R": 1 if tier == "quick" else 2, "chunk": 0, "chunks": 1})
+    # every truncation length of the answer, as a lone datagram / segment (0 bytes .. whole frame minus one)
+    for transport, framing in (("udp", "rtu"), ("tcp", "tcp"), ("udp", "aa55")):
+        for ka in (False, True):
+            specs.append({"mode": "truncation", "transport": transport, "framing": framing, "ka": ka, "T": 1,
+                          "Rs": (0, 1) if tier == "quick" else (0, 1, 2, 3)})
     # TCP connect outcome scripts
     for ka in (False, True):
         specs.append({"mode": "connect", "ka": ka, "depth": 3 if tier == "quick" else 4})
@@ -255,6 +260,19 @@ def run_shard(spec):
             for hops in range(0, 8):        # arrival phase of the stale datagram relative to the caller's wake-up
                 run_case(scenario_idle_garbage(spec["transport"], spec["framing"], spec["ka"], spec["T"], R, D * spec["T"], hops), part)
                 part.count("stale_datagram_while_idle")
+    elif mode == "truncation":
+        full = {"rtu": 9, "tcp": 13, "aa55": 9 + 40}[spec["framing"]]      # length of the complete answer to the request used here
+        for R in spec["Rs"]:
+            for k in range(0, full):
+                if k == 0 and spec["transport"] == "tcp":
+                    continue
+                for tail in (["drop"], ["now"]):
+                    for reps in sorted({1, R + 1}):
+                        script = [["frag1", k]] * reps + tail
+                        sc = scenario(spec["transport"], spec["framing"], spec["ka"], spec["T"], R, script)
+                        sc["fullscript"] = [f"lone {k}-byte truncation x{reps}"] + tail
+                        run_case(sc, part)
+                        part.count("truncated_answer")
     elif mode == "connect":
         for R in (0, 1, 2, 3):
             for depth in range(1, spec["depth"] + 1):
